@@ -27,6 +27,9 @@ structure Request where
   method : Str
   svc : Nat                    -- which service's event_sub_url the request went to
   headers : PyDict Str Str     -- header names upper-cased
+  /-- observation taken by the publisher when the request ARRIVES: `service_for_sid(<SID header>)` at that moment
+      (`none`: not routed / no SID header).  Lets the judge see the routing while a request is in flight. -/
+  routed : Option Nat := none
 deriving DecidableEq, Repr
 
 def secondPrefix : Str := ['S','e','c','o','n','d','-']
@@ -50,8 +53,10 @@ def mkReq (cfg : Cfg) (spec : ReqSpec) (svc : Nat) (timeout : Int) (sid : Str) :
 
 def subscribeRequest (cfg : Cfg) (svc : Nat) (timeout : Int) : Request :=
   mkReq cfg Gen.C09Gena.subscribeReq svc timeout []
+/-- a renewal goes out for a SID that is routed to the service at that moment -/
 def renewRequest (cfg : Cfg) (svc : Nat) (sid : Str) (timeout : Int) : Request :=
-  mkReq cfg Gen.C09Gena.renewReq svc timeout sid
+  { mkReq cfg Gen.C09Gena.renewReq svc timeout sid with routed := some svc }
+/-- `async_unsubscribe` deletes the registration BEFORE the request goes out: not routed on arrival -/
 def unsubRequest (cfg : Cfg) (svc : Nat) (sid : Str) : Request :=
   mkReq cfg Gen.C09Gena.unsubReq svc 0 sid
 
